@@ -1,5 +1,5 @@
 (* C06_Proofs.v — the model of parseConfig equals the set-comprehension specification. *)
-From Coq Require Import Lia.
+From Coq Require Import Lia Permutation.
 From V Require Import C06_Spec.
 Open Scope N_scope.
 
@@ -319,21 +319,291 @@ Proof.
   rewrite !in_axis, !in_bool_cases_opt. unfold matches, regular. tauto.
 Qed.
 
+(* the seven error tests of resolveCase, one small lemma each (no search over the
+   whole conjunction: each lemma speaks about the two or three atoms it needs) *)
+Lemma or_iff (A B C D : Prop) : (A <-> B) -> (C <-> D) -> (A \/ C <-> B \/ D).
+Proof. tauto. Qed.
+
+Lemma nz_eqb (x k : N) : k <> 0 -> negb (x =? 0) && (x =? k) = (x =? k).
+Proof.
+  intros Hk. destruct (N.eqb_spec x k) as [->|_]; [|apply andb_false_r].
+  destruct (N.eqb_spec k 0); [contradiction|reflexivity].
+Qed.
+
+Lemma e_h2 (v : N) (t h : bool) :
+  negb (v =? 0) && (v =? H2) && negb t && negb h = true <-> v = H2 /\ t = false /\ h = false.
+Proof.
+  rewrite nz_eqb by discriminate. rewrite !andb_true_iff, !negb_true_iff, N.eqb_eq. tauto.
+Qed.
+
+Lemma e_h3 (v : N) (t : bool) :
+  negb (v =? 0) && (v =? H3) && negb t = true <-> v = H3 /\ t = false.
+Proof.
+  rewrite nz_eqb by discriminate. rewrite !andb_true_iff, !negb_true_iff, N.eqb_eq. tauto.
+Qed.
+
+Lemma e_grpc (p : N) (V : list N) :
+  negb (p =? 0) && (p =? GRPC) && negb (contains V H2) = true <-> p = GRPC /\ ~ In H2 V.
+Proof.
+  rewrite nz_eqb by discriminate. rewrite !andb_true_iff, !negb_true_iff, N.eqb_eq, contains_false. tauto.
+Qed.
+
+Lemma only_H1 V : only V H1 = true <-> all_http1 V.
+Proof. apply only_spec. Qed.
+
+Lemma e_half (s : N) (h : bool) (V : list N) :
+  negb (s =? 0) && (s =? HALF) && negb h && only V H1 = true <-> s = HALF /\ h = false /\ all_http1 V.
+Proof.
+  rewrite nz_eqb by discriminate. rewrite !andb_true_iff, !negb_true_iff, N.eqb_eq, only_H1. tauto.
+Qed.
+
+Lemma e_full (s : N) (V : list N) :
+  negb (s =? 0) && (s =? FULL) && only V H1 = true <-> s = FULL /\ all_http1 V.
+Proof.
+  rewrite nz_eqb by discriminate. rewrite !andb_true_iff, N.eqb_eq, only_H1. tauto.
+Qed.
+
+Lemma e_certs {A} (ec et : option bool) (ft : bool) (a : A) :
+  (getb ec && match et with Some false => true | _ => false end = true \/
+   getb ec && negb (contains_b (opt_cases et) true) && negb ft = true \/ Ok a = Err)
+  <-> ec = Some true /\ match et with Some b => b | None => ft end = false.
+Proof.
+  destruct ec as [[]|], et as [[]|], ft; simpl; split;
+    try (intros [H|[H|H]]; discriminate); try (intros [H H']; discriminate);
+    try (intros _; split; reflexivity); try (intros _; left; reflexivity); try (intros _; right; left; reflexivity).
+Qed.
+
 Lemma resolve_case_err f e : resolve_case f e = Err <-> entry_contradictory f e.
 Proof.
   unfold resolve_case. cbv zeta. rewrite !if_err. unfold entry_contradictory.
   fold (entry_versions f e). fold (entry_tls_possible f e).
-  rewrite !andb_true_iff, !negb_true_iff, !N.eqb_eq, contains_false, !only_spec.
-  assert (V2 : e_version e <> 0 /\ e_version e = H2 <-> e_version e = H2) by (unfold H2; intuition congruence).
-  assert (V3 : e_version e <> 0 /\ e_version e = H3 <-> e_version e = H3) by (unfold H3; intuition congruence).
-  assert (P2 : e_protocol e <> 0 /\ e_protocol e = GRPC <-> e_protocol e = GRPC) by (unfold GRPC; intuition congruence).
-  assert (S4 : e_stream e <> 0 /\ e_stream e = HALF <-> e_stream e = HALF) by (unfold HALF; intuition congruence).
-  assert (S5 : e_stream e <> 0 /\ e_stream e = FULL <-> e_stream e = FULL) by (unfold FULL; intuition congruence).
-  rewrite !N.eqb_neq.
-  assert (C : (getb (e_certs e) = true /\ match e_tls e with Some false => true | _ => false end = true) \/
-              ((getb (e_certs e) = true /\ contains_b (opt_cases (e_tls e)) true = false) /\ r_tls f = false) <->
-              e_certs e = Some true /\ entry_tls_possible f e = false).
-  { unfold entry_tls_possible. destruct (e_certs e) as [[]|], (e_tls e) as [[]|], (r_tls f); simpl; intuition congruence. }
-  unfold all_http1, all_eq in *.
-  intuition (try congruence).
+  apply or_iff; [apply e_h2|].
+  apply or_iff; [apply e_h3|].
+  apply or_iff; [apply e_grpc|].
+  apply or_iff; [apply e_half|].
+  apply or_iff; [apply e_full|].
+  apply e_certs.
+Qed.
+
+Lemma resolve_case_total f e : resolve_case f e = Err \/ exists l, resolve_case f e = Ok l.
+Proof. destruct (resolve_case f e) as [l|]; [right; exists l; reflexivity|left; reflexivity]. Qed.
+
+(* ---------- the features-implied set ---------- *)
+Lemma in_features_compute f c : In c (compute_cases f [] [] []) <-> in_features f c.
+Proof.
+  rewrite in_compute, guards_valid, !in_bool_cases_nil. unfold in_features, regular. tauto.
+Qed.
+
+(* ---------- the include loop: union ---------- *)
+Lemma add_includes_ok f es : forall cs r,
+  add_includes f cs es = Ok r ->
+  forall c, In c r <-> In c cs \/ exists e, In e es /\ matches f e c.
+Proof.
+  induction es as [|e es IH]; intros cs r H c.
+  - simpl in H. inversion H; subst. split; [tauto|]. intros [H'|(e & [] & _)]. exact H'.
+  - simpl in H. destruct (resolve_case f e) as [l|] eqn:E; [|discriminate].
+    rewrite (IH _ _ H c), in_app_iff. pose proof (resolve_case_ok f e l E c) as M. split.
+    + intros [[Hc|Hc]|(e' & Hin & Hm)].
+      * left; exact Hc.
+      * right. exists e. split; [left; reflexivity|apply M; exact Hc].
+      * right. exists e'. split; [right; exact Hin|exact Hm].
+    + intros [Hc|(e' & [<-|Hin] & Hm)].
+      * left; left; exact Hc.
+      * left; right; apply M; exact Hm.
+      * right. exists e'. split; assumption.
+Qed.
+
+Lemma add_includes_err f es : forall cs,
+  add_includes f cs es = Err <-> exists e, In e es /\ entry_contradictory f e.
+Proof.
+  induction es as [|e es IH]; intros cs; simpl.
+  - split; [discriminate|intros (e & [] & _)].
+  - destruct (resolve_case f e) as [l|] eqn:E.
+    + rewrite IH. split.
+      * intros (e' & Hin & Hc). exists e'. split; [right; exact Hin|exact Hc].
+      * intros (e' & [<-|Hin] & Hc).
+        -- apply resolve_case_err in Hc. congruence.
+        -- exists e'. split; assumption.
+    + split; [|reflexivity]. intros _. exists e. split; [left; reflexivity|apply resolve_case_err; exact E].
+Qed.
+
+(* ---------- the exclude loop: difference ---------- *)
+Lemma in_filter_not_mem c cs l :
+  In c (filter (fun c => negb (mem_case c l)) cs) <-> In c cs /\ ~ In c l.
+Proof.
+  rewrite filter_In, negb_true_iff, <- (mem_case_In c l).
+  destruct (mem_case c l); split; intros [H H']; (split; [exact H|]); try discriminate; try reflexivity.
+  exfalso. apply H'. reflexivity.
+Qed.
+
+Lemma drop_excludes_ok f es : forall cs r,
+  drop_excludes f cs es = Ok r ->
+  forall c, In c r <-> In c cs /\ ~ exists e, In e es /\ matches f e c.
+Proof.
+  induction es as [|e es IH]; intros cs r H c.
+  - simpl in H. inversion H; subst. split; [|tauto]. intros H'. split; [exact H'|]. intros (e & [] & _).
+  - simpl in H. destruct (resolve_case f e) as [l|] eqn:E; [|discriminate].
+    rewrite (IH _ _ H c), in_filter_not_mem. pose proof (resolve_case_ok f e l E c) as M. split.
+    + intros [[Hc Hn] Hn']. split; [exact Hc|]. intros (e' & [<-|Hin] & Hm).
+      * apply Hn, M, Hm.
+      * apply Hn'. exists e'. split; assumption.
+    + intros [Hc Hn]. split; [split; [exact Hc|]|].
+      * intros Hl. apply Hn. exists e. split; [left; reflexivity|apply M; exact Hl].
+      * intros (e' & Hin & Hm). apply Hn. exists e'. split; [right; exact Hin|exact Hm].
+Qed.
+
+Lemma drop_excludes_err f es : forall cs,
+  drop_excludes f cs es = Err <-> exists e, In e es /\ entry_contradictory f e.
+Proof.
+  induction es as [|e es IH]; intros cs; simpl.
+  - split; [discriminate|intros (e & [] & _)].
+  - destruct (resolve_case f e) as [l|] eqn:E.
+    + rewrite IH. split.
+      * intros (e' & Hin & Hc). exists e'. split; [right; exact Hin|exact Hc].
+      * intros (e' & [<-|Hin] & Hc).
+        -- apply resolve_case_err in Hc. congruence.
+        -- exists e'. split; assumption.
+    + split; [|reflexivity]. intros _. exists e. split; [left; reflexivity|apply resolve_case_err; exact E].
+Qed.
+
+(* ---------- parseConfig before the emptiness test ---------- *)
+Lemma expand_ok cfg cs :
+  expand_config cfg = Ok cs -> forall c, In c cs <-> spec_member cfg c.
+Proof.
+  unfold expand_config, spec_member. cbv zeta.
+  destruct (resolve_features (cfg_features cfg)) as [f|] eqn:EF; [|discriminate].
+  apply resolve_features_ok in EF. subst f.
+  destruct (add_includes _ _ (cfg_includes cfg)) as [inc|] eqn:EI; [|discriminate].
+  intros ED c.
+  rewrite (drop_excludes_ok _ _ _ _ ED c), (add_includes_ok _ _ _ _ EI c), in_features_compute. tauto.
+Qed.
+
+Lemma expand_err cfg : expand_config cfg = Err <-> contradictory cfg.
+Proof.
+  unfold expand_config, contradictory.
+  destruct (resolve_features (cfg_features cfg)) as [f|] eqn:EF.
+  - pose proof EF as NF. apply resolve_features_ok in EF. subst f.
+    assert (NC : ~ features_contradictory (cfg_features cfg)).
+    { intros H. apply resolve_features_err in H. congruence. }
+    destruct (add_includes _ _ (cfg_includes cfg)) as [inc|] eqn:EI.
+    + assert (NI : ~ exists e, In e (cfg_includes cfg) /\ entry_contradictory (defaulted (cfg_features cfg)) e).
+      { intros H. apply (add_includes_err _ _ (compute_cases (defaulted (cfg_features cfg)) [] [] [])) in H. congruence. }
+      rewrite drop_excludes_err. split.
+      * intros (e & Hin & Hc). right. exists e. split; [apply in_or_app; right; exact Hin|exact Hc].
+      * intros [H|(e & Hin & Hc)]; [contradiction|]. apply in_app_or in Hin. destruct Hin as [Hin|Hin].
+        -- exfalso. apply NI. exists e. split; assumption.
+        -- exists e. split; assumption.
+    + split; [|reflexivity]. intros _. right. apply add_includes_err in EI. destruct EI as (e & Hin & Hc).
+      exists e. split; [apply in_or_app; left; exact Hin|exact Hc].
+  - split; [|reflexivity]. intros _. left. apply resolve_features_err. exact EF.
+Qed.
+
+(* ---------- the property theorems ---------- *)
+Theorem parse_ok_iff_proof : forall cfg cs,
+  parse_config cfg = Ok cs -> forall c, In c cs <-> spec_member cfg c.
+Proof.
+  intros cfg cs H. unfold parse_config in H.
+  destruct (expand_config cfg) as [[|c0 l]|] eqn:E; try discriminate.
+  inversion H; subst. apply expand_ok. exact E.
+Qed.
+
+Lemma spec_member_valid cfg c : spec_member cfg c -> valid_case (defaulted (cfg_features cfg)) c /\ regular c.
+Proof.
+  unfold spec_member, in_features, matches. cbv zeta. intros [[H|(e & _ & H)] _]; tauto.
+Qed.
+
+Theorem parse_valid_proof : forall cfg cs,
+  parse_config cfg = Ok cs ->
+  cs <> [] /\ Forall (fun c => valid_case (defaulted (cfg_features cfg)) c /\ regular c) cs.
+Proof.
+  intros cfg cs H. split.
+  - unfold parse_config in H. destruct (expand_config cfg) as [[|c0 l]|]; try discriminate.
+    inversion H; subst. discriminate.
+  - apply Forall_forall. intros c Hc. apply spec_member_valid. apply (parse_ok_iff_proof cfg cs H c). exact Hc.
+Qed.
+
+Theorem parse_err_iff_proof : forall cfg,
+  parse_config cfg = Err <-> contradictory cfg \/ (forall c, ~ spec_member cfg c).
+Proof.
+  intros cfg. unfold parse_config. destruct (expand_config cfg) as [[|c0 l]|] eqn:E.
+  - split; [|reflexivity]. intros _. right. intros c Hc. apply (expand_ok cfg [] E c) in Hc. exact Hc.
+  - split; [discriminate|]. intros [H|H].
+    + apply expand_err in H. congruence.
+    + exfalso. apply (H c0). apply (expand_ok cfg _ E c0). left. reflexivity.
+  - split; [|reflexivity]. intros _. left. apply expand_err. exact E.
+Qed.
+
+(* parseConfig is total: error or a set, never both (res has two constructors) *)
+Theorem parse_ok_when_proof : forall cfg,
+  ~ contradictory cfg -> (exists c, spec_member cfg c) -> exists cs, parse_config cfg = Ok cs.
+Proof.
+  intros cfg NC (c & Hc). destruct (parse_config cfg) as [cs|] eqn:E; [exists cs; reflexivity|].
+  apply parse_err_iff_proof in E. destruct E as [E|E]; [contradiction|]. exfalso. exact (E c Hc).
+Qed.
+
+(* the empty Features message resolves to the documented defaults *)
+Theorem defaults_doc_proof :
+  resolve_features (mkFeatures [] [] [] [] [] None None None None None None None) =
+  Ok (mkResolved [H1; H2] [CONNECT; GRPC; GRPCWEB] [PROTO; JSON] [IDENTITY; GZIP]
+                 [UNARY; CLIENT_STREAM; SERVER_STREAM; HALF; FULL] true true false true false true true).
+Proof. reflexivity. Qed.
+
+(* ---------- the compared observable (sorted, de-duplicated keys) determines the set ---------- *)
+Lemma in_uniq_sorted x l : In x (uniq_sorted l) <-> In x l.
+Proof.
+  induction l as [|a [|b t] IH]; [tauto|tauto|].
+  change (uniq_sorted (a :: b :: t)) with (if a =? b then uniq_sorted (b :: t) else a :: uniq_sorted (b :: t)).
+  destruct (N.eqb_spec a b) as [->|_].
+  - rewrite IH. simpl. tauto.
+  - simpl In at 1. rewrite IH. simpl. tauto.
+Qed.
+
+Lemma in_case_keys k cs : In k (case_keys cs) <-> exists c, In c cs /\ case_key c = k.
+Proof.
+  unfold case_keys. rewrite in_uniq_sorted. split.
+  - intros H. apply (Permutation_in k (Permutation_sym (NSort.Permuted_sort (map case_key cs)))) in H.
+    apply in_map_iff in H. destruct H as (c & E & Hc). exists c. split; assumption.
+  - intros (c & Hc & E). apply (Permutation_in k (NSort.Permuted_sort (map case_key cs))).
+    apply in_map_iff. exists c. split; assumption.
+Qed.
+
+Lemma split16 x u y v : u < 16 -> v < 16 -> x * 16 + u = y * 16 + v -> x = y /\ u = v.
+Proof. lia. Qed.
+Lemma split2 x (a : bool) y (b : bool) : x * 2 + b2n a = y * 2 + b2n b -> x = y /\ a = b.
+Proof. destruct a, b; simpl; intros H; split; try reflexivity; lia. Qed.
+
+(* enum numbers below 16 (config.proto declares 0..6 at most) *)
+Definition small_case (c : case) : Prop :=
+  c_version c < 16 /\ c_protocol c < 16 /\ c_codec c < 16 /\ c_compression c < 16 /\ c_stream c < 16.
+
+Lemma case_key_inj a b : small_case a -> small_case b -> case_key a = case_key b -> a = b.
+Proof.
+  destruct a as [v p cd z s tls cert g l cvm], b as [v' p' cd' z' s' tls' cert' g' l' cvm'].
+  unfold small_case, case_key.
+  cbn [c_version c_protocol c_codec c_compression c_stream c_tls c_certs c_get c_limit c_cvm].
+  intros (A1 & A2 & A3 & A4 & A5) (B1 & B2 & B3 & B4 & B5) H.
+  apply split2 in H. destruct H as [H ->].
+  apply split2 in H. destruct H as [H ->].
+  apply split2 in H. destruct H as [H ->].
+  apply split2 in H. destruct H as [H ->].
+  apply split16 in H; [|assumption|assumption]. destruct H as [H ->].
+  apply split16 in H; [|assumption|assumption]. destruct H as [H ->].
+  apply split16 in H; [|assumption|assumption]. destruct H as [H ->].
+  apply split16 in H; [|assumption|assumption]. destruct H as [H ->].
+  apply split16 in H; [|assumption|assumption]. destruct H as [-> ->].
+  reflexivity.
+Qed.
+
+Theorem observable_faithful_proof : forall cs cs',
+  Forall small_case cs -> Forall small_case cs' ->
+  case_keys cs = case_keys cs' -> forall c, In c cs <-> In c cs'.
+Proof.
+  assert (half : forall cs cs', Forall small_case cs -> Forall small_case cs' ->
+                 case_keys cs = case_keys cs' -> forall c, In c cs -> In c cs').
+  { intros cs cs' S S' E c Hc.
+    assert (K : In (case_key c) (case_keys cs)) by (apply in_case_keys; exists c; split; [exact Hc|reflexivity]).
+    rewrite E in K. apply in_case_keys in K. destruct K as (c' & Hc' & E').
+    rewrite Forall_forall in S, S'.
+    rewrite <- (case_key_inj c' c (S' c' Hc') (S c Hc) E'). exact Hc'. }
+  intros cs cs' S S' E c. split; [apply half|apply half]; auto.
 Qed.
